@@ -103,12 +103,18 @@ structure ElimShape where
   /-- every condition must have `child_value == parent_value` -/
   sameColumns : Bool
   subjRefs : SubjRefsCond
+  /-- `rml_rule['source_name'] == parent['source_name']` is required (both rules come from the same configuration section;
+      the repair of C07_F5) -/
+  sameSection : Bool
   deriving DecidableEq, Repr, Inhabited
 
 /-- the code as found -/
-def ElimShape.found : ElimShape := { sameSource := true, sameIterator := true, sameColumns := true, subjRefs := .unchecked }
-/-- the proposed repair (fixes/C07_F1.diff) -/
+def ElimShape.found : ElimShape :=
+  { sameSource := true, sameIterator := true, sameColumns := true, subjRefs := .unchecked, sameSection := false }
+/-- after the first repair (fixes/applied/C07_F1.diff, commit 6642bb9): still without the test of the section (finding C07_F5) -/
 def ElimShape.repaired : ElimShape := { ElimShape.found with subjRefs := .eqJoinCols }
+/-- the shape now: both repairs (fixes/C07_F1.diff and fixes/C07_F5.diff) -/
+def ElimShape.current : ElimShape := { ElimShape.repaired with sameSection := true }
 
 /-- how `RML_PARSING_QUERY` collects the object maps of a predicate-object map -/
 inductive ObjectQueryShape
